@@ -152,6 +152,19 @@ func (e *Engine) scanInitOnly(g *ssa.Global) map[string]*ssa.Const {
 						}
 						// a whole-value store in the initialiser: fields are not tracked individually
 						out["whole"] = nil
+						switch v := u.Val.(type) {
+						case *ssa.Function, *ssa.MakeClosure, *ssa.Alloc, *ssa.MakeSlice, *ssa.MakeMap, *ssa.MakeInterface:
+							if _, seen := nonNil["whole"]; !seen {
+								nonNil["whole"] = true
+							}
+						case *ssa.Const:
+							nonNil["whole"] = nonNil["whole"] && v.Value != nil
+							if v.Value == nil {
+								nonNil["whole"] = false
+							}
+						default:
+							nonNil["whole"] = false
+						}
 					case *ssa.DebugRef:
 					default:
 						ok = false
@@ -161,10 +174,18 @@ func (e *Engine) scanInitOnly(g *ssa.Global) map[string]*ssa.Const {
 		}
 	}
 	if !ok {
+		delete(nonNil, "whole")
 		return nil
 	}
 	if _, whole := out["whole"]; whole {
 		return nil
 	}
 	return out
+}
+
+// initOnlyWholeNonNil: g is a package-level variable (a function value, a pointer, a map …) that only its package
+// initialiser writes, as a whole and with a non-nil value: `var hook = func(…) {}` that nothing reassigns.
+func (e *Engine) initOnlyWholeNonNil(g *ssa.Global) bool {
+	e.initOnlyConst(g, nil) // make sure g has been scanned
+	return e.initNonNil[g]["whole"]
 }
